@@ -1,8 +1,12 @@
 (* Model/PingScript.v — the scenario scripts exchanged with the harness, as model events.
 
    A scenario is what the harness DID, linearised (see harness/cmd/c19):
-     b p ok     call p of Ping/Ping6 was started and its Begin section is complete
-                (the echo request is on the wire, or the call returned the send error)
+     b p ok     call p of Ping/Ping6 was started, registered its waiter and its send returned
+                (the echo request is on the wire, or the call returned the send error), with
+                nothing else happening in between
+     q p        call p registered its waiter and is INSIDE its send (the scripted connection's
+                WriteTo is running); z p ok: that WriteTo returned
+     x n        n calls with an address of the wrong family, one after the other
      r f        the frame f was handed to Session.Parse, which returned
      w p        the harness waited until call p returned: the model event(s) are
                 [Timeout p] if the call was not woken (only the timer can end it), then [End p]
@@ -14,7 +18,10 @@ From PV Require Import Base.Prelude Model.Ping Model.PingFrame.
 Open Scope N_scope.
 
 Inductive tok : Set :=
-| TBegin (p : pid) (ok : bool) (shows_id : bool)
+| TBegin (p : pid) (ok : bool) (shows_id : bool)   (* registration and send, nothing in between *)
+| TReg (p : pid)                                   (* registration only: the call is inside its send *)
+| TSent (p : pid) (ok : bool)                      (* that send returned *)
+| TBulk (n : N)                                    (* n address-error calls, one after the other *)
 | TFrame (f : bytes)
 | TWait (p : pid)
 | TTimeout (p : pid)
@@ -28,7 +35,10 @@ Definition frame_event (f : bytes) : event :=
 (* the events a token stands for in state s; None = Parse panics in the model *)
 Definition events_of (classify : bytes -> res (option N)) (s : state) (t : tok) : res (list event) :=
   match t with
-  | TBegin p ok _ => Ok [Begin p ok]
+  | TBegin p ok _ => Ok [Begin p; Sent p ok]
+  | TReg p => Ok [Begin p]
+  | TSent p ok => Ok [Sent p ok]
+  | TBulk n => Ok [BulkFail n]
   | TFrame f =>
       match classify f with
       | Ok (Some i) => Ok [Notify i]
@@ -76,5 +86,6 @@ Fixpoint begun (ts : list tok) : list (pid * bool) :=
   match ts with
   | [] => []
   | TBegin p _ sh :: r => (p, sh) :: begun r
+  | TReg p :: r => (p, true) :: begun r
   | _ :: r => begun r
   end.
